@@ -15,7 +15,7 @@ PID = "C09"
 THEOREMS = ["multseq_sorted_once", "multseq_sound", "multseq_refuses_iff", "multseq_refuses_iff_bases", "chain_to_base",
             "zoom_level_eq_direct", "zoom_levels_eq_chain", "zoom_layout", "specLevel_compose", "coarsenLevel_eq_spec",
             "expandSpec_int", "expandSpec_list", "mem_binary", "mem_nice", "preferred_bounds"]
-LEVELS = {"zoomify": "top", "columns": "top", "cli": "top", "forms": "top", "sequence": "top", "multseq": "unit", "preferred": "unit"}
+LEVELS = {"zoomify": "top", "columns": "top", "cli": "top", "forms": "top", "sequence": "top", "mixed_dtypes": "top", "multseq": "unit", "preferred": "unit"}
 DESCRIBE = {
     "zoomify": "cooler.zoomify_cooler(bases, out, resolutions, chunksize, nproc): refusal iff Lean `getMultiplierSequence` errs; "
                "`list_coolers(out)` = Lean `listing` (exactly /resolutions/<r> for r in the sorted union), `is_multires_file`; every base "
@@ -31,6 +31,10 @@ DESCRIBE = {
     "sequence": "several zoomify_cooler calls in ONE process with the `dtypes` argument OMITTED: an int32-count base, then a float64-count "
                 "base holding quarters (the integer model answers x4), then an int32 base again; every level of every file = direct "
                 "coarsening of ITS base (Lean), stored with ITS base's value dtype — no state may leak from one call to the next",
+    "mixed_dtypes": "two bases whose count dtypes differ (int32 + float64 quarters) in ONE zoomify: library with dtypes={} and with a partial "
+                    "dict ({'w': float64}, columns count+w), bases in both orders, and `cooler zoomify -r ... --field count -i B -o out A` "
+                    "in both orders; every level = the Lean level of ITS base: values (x4 for the float base), stored dtype kind, `sum` "
+                    "(D27 regression: the dtype inferred for one base must not be applied to levels derived from the other)",
     "multseq": "get_multiplier_sequence(resolutions, bases): raises iff Lean says so (some non-base member has no smaller member "
                "dividing it, equivalently is not a multiple of any base: theorems multseq_refuses_iff / _bases); otherwise its output "
                "satisfies the Lean contract `validMultSeq` and `resn` is the sorted union",
@@ -41,7 +45,7 @@ RULE = ("bases of width 1-3 over 1-2 chromosomes (<= 14 bins, short last bins) a
         "and without the base, with a non-derivable member (must raise); 1, 2 and 3 base URIs with INDEPENDENT data (a base that is "
         "a multiple of another base must stay a copy of its own source: D19; two bases: D9); chunksize 1..nnz+1, nproc 1 (quick) / "
         "1-2 (thorough); forms: 11 presentations of one target set; sequence: int32 -> float64 (quarters) -> int32 calls in one process, "
-        "dtypes omitted; multseq: ALL resolution sets within {1..24} of size <= 3 x bases None / subsets of resolutions+{1,2,3} (quick: "
+        "dtypes omitted; mixed_dtypes: int32 base + float64 (quarters) base of coprime widths, explicit dtypes dicts and the CLI; multseq: ALL resolution sets within {1..24} of size <= 3 x bases None / subsets of resolutions+{1,2,3} (quick: "
         "size <= 2; thorough: all); non-trivial = >= 2 levels and >= 2 pixels; distinct by canonical JSON")
 EXHAUSTIVE = {"quick": False, "thorough": True}
 TRUSTED = ["h5py Group.copy / attrs.update / file modes and natsort are primitives of the model",
@@ -473,8 +477,126 @@ def _sequence(case):
         _unlink(*paths, *outs)
 
 
-CHECKS = {"zoomify": _zoomify, "columns": _columns, "cli": _cli, "forms": _forms, "sequence": _sequence, "multseq": _multseq,
-          "preferred": _preferred}
+
+def _write_mixed_base(path, b, with_w):
+    """int32 counts, or float64 counts holding quarters (stored value = numerator / 4); optional integer column w"""
+    px = b["pixels"]
+    flt = b["kind"] == "float"
+    d = {"bin1_id": np.array([p[0] for p in px], dtype=np.int64), "bin2_id": np.array([p[1] for p in px], dtype=np.int64),
+         "count": np.array([p[2] / 4.0 for p in px], dtype=np.float64) if flt else np.array([p[2] for p in px], dtype=np.int32)}
+    kw = {"dtypes": {"count": np.float64 if flt else np.int32}}
+    if with_w:
+        d["w"] = np.array(b["w"], dtype=np.int64)
+        kw = {"dtypes": {"count": np.float64 if flt else np.int32, "w": np.int64}, "columns": ["count", "w"]}
+    cooler.create_cooler(path, gen.bins_df(b["bins"]), pd.DataFrame(d), symmetric_upper=True, ordered=True, **kw)
+
+
+def _mixed_level(out, r, bases, with_w, where):
+    """level r of `out` must be the Lean level of one of the bases dividing r: values, stored dtype kind, sum"""
+    c = cooler.Cooler(f"{out}::resolutions/{r}")
+    t = c.pixels()[:]
+    gb = gen.df_bins(c.bins()[["chrom", "start", "end"]][:], list(c.chromnames))
+    with h5py.File(out, "r") as f:
+        g = f[f"resolutions/{r}/pixels"]
+        kind = g["count"].dtype.kind
+        wkind = g["w"].dtype.kind if "w" in g else None
+    cnt = [float(v) for v in t["count"]]
+    ids = [[int(a), int(b_)] for a, b_ in zip(t["bin1_id"], t["bin2_id"])]
+    fails = []
+    for b in bases:
+        br = _base_res(b)
+        if r % br:
+            continue
+        scale, wantkind = (4, "f") if b["kind"] == "float" else (1, "i")
+        lv = drv().ask("C09.level", bins=b["bins"], pixels=b["pixels"], m=r // br) if r != br else \
+            {"bins": b["bins"], "pixels": b["pixels"], "total": sum(p[2] for p in b["pixels"])}
+        got = [[i, j, v * scale] for (i, j), v in zip(ids, cnt)]
+        why = None
+        if gb != lv["bins"]:
+            why = {"what": "bin table", "impl": gb, "model": lv["bins"]}
+        elif got != [[i, j, float(v)] for i, j, v in lv["pixels"]]:
+            why = {"what": f"count column (x{scale})", "impl": got, "model": lv["pixels"], "stored_dtype_kind": kind}
+        elif kind != wantkind:
+            why = {"what": "stored dtype kind of the count column differs from its base's", "impl": kind, "base": wantkind}
+        elif float(c.info["sum"]) * scale != lv["total"] or int(c.info["nnz"]) != len(lv["pixels"]):
+            why = {"what": "sum/nnz attributes", "impl": [float(c.info["sum"]), int(c.info["nnz"])], "model": [lv["total"] / scale, len(lv["pixels"])]}
+        elif with_w:
+            if "w" not in t.columns:
+                why = {"what": "requested value column w missing"}
+            else:
+                lw = drv().ask("C09.level", bins=b["bins"], pixels=[[i, j, x] for (i, j, _), x in zip(b["pixels"], b["w"])], m=r // br) \
+                    if r != br else {"pixels": [[i, j, x] for (i, j, _), x in zip(b["pixels"], b["w"])]}
+                gw = [[i, j, float(x)] for (i, j), x in zip(ids, t["w"])]
+                if gw != [[i, j, float(x)] for i, j, x in lw["pixels"]]:
+                    why = {"what": "w column", "impl": gw, "model": lw["pixels"]}
+                elif r != br and wkind != "f":
+                    why = {"what": "w column not stored with the requested dtype float64", "impl": wkind}
+        if why is None:
+            return None
+        fails.append(dict(why, from_base=br, base_kind=b["kind"]))
+    first = dict(where, mismatch=True, resolution=r, **fails[0]) if fails else dict(where, mismatch=True, resolution=r, what="no base divides the level")
+    first["note"] = "the level is not the coarsening of any supplied base with that base's values, value dtype and sum"
+    if len(fails) > 1:
+        first["other_candidates"] = [{k: v for k, v in x.items() if k in ("what", "from_base")} for x in fails[1:]]
+    return first
+
+
+def _mixed_dtypes(case):
+    """D27 regression: one zoomify over two bases whose count dtypes differ, explicit dtypes dicts / the CLI"""
+    from click.testing import CliRunner
+    from cooler.cli import cli
+    d = gen.tmpdir()
+    tag = _tag()
+    bases = case["bases"]
+    res = list(case["resolutions"])
+    want_listing = None
+    paths, out = [], os.path.join(d, f"zm-{tag}-out.mcool")
+    try:
+        for with_w in (False, True):
+            _unlink(*paths)
+            paths = []
+            for k, b in enumerate(bases):
+                p = os.path.join(d, f"zm-{tag}-b{k}{'w' if with_w else ''}.cool")
+                _write_mixed_base(p, b, with_w)
+                paths.append(p)
+            for b in bases:
+                b.pop("res", None)
+            resn = sorted(set(res) | {_base_res(b) for b in bases})
+            m = drv().ask("C09.multseq", resolutions=res, bases=sorted({_base_res(b) for b in bases}), impl=None)
+            assert "ok" in m["model"] and m["model"]["ok"]["resn"] == resn, "generator: mixed_dtypes cases use derivable targets"
+            want_listing = [f"/resolutions/{r}" for r in resn]
+            variants = []
+            for order in ([0, 1], [1, 0]):
+                if with_w:
+                    variants.append((f"library dtypes={{'w': float64}} columns=[count, w] order={order}", order,
+                                     {"dtypes": {"w": np.float64}, "columns": ["count", "w"]}, None))
+                else:
+                    variants.append((f"library dtypes={{}} order={order}", order, {"dtypes": {}}, None))
+                    variants.append((f"cli --field count order={order}", order, None,
+                                     ["zoomify", "-r", ",".join(map(str, res)), "-c", str(case["chunksize"]), "--field", "count"]))
+            for label, order, kw, cliargs in variants:
+                _unlink(out)
+                where = {"route": label}
+                if cliargs is None:
+                    impl(cooler.zoomify_cooler, [paths[i] for i in order], out, list(res), case["chunksize"], **kw)
+                else:
+                    r = CliRunner().invoke(cli, cliargs + ["-i", paths[order[1]], "-o", out, paths[order[0]]])
+                    if r.exit_code != 0:
+                        return dict(where, mismatch=True, what="cooler zoomify failed", exception=repr(r.exception)[:300])
+                listing = impl(cooler.fileops.list_coolers, out)
+                if listing != want_listing:
+                    return dict(where, mismatch=True, what="list_coolers", impl=listing, model=want_listing)
+                for r_ in resn:
+                    x = _mixed_level(out, r_, bases, with_w, where)
+                    if x:
+                        return x
+        return None
+    finally:
+        _unlink(out, *paths)
+
+
+CHECKS = {"zoomify": _zoomify, "columns": _columns, "cli": _cli, "forms": _forms, "sequence": _sequence, "mixed_dtypes": _mixed_dtypes,
+          "multseq": _multseq, "preferred": _preferred}
 
 
 # ----------------------------------------------------------------------------------------------
@@ -599,6 +721,27 @@ def cases(tier, rng):
                 b["pixels"] = [[i, j, 4 * (v % 5) + 1 + (k % 3)] for k, (i, j, v) in enumerate(b["pixels"])]
             steps.append({"kind": kind, "base": b, "resolutions": [w * m for m in rng.sample(range(2, 9), rng.randint(1, 3))]})
         yield "sequence", {"steps": steps, "chunksize": rng.randint(1, 12)}
+    # two bases whose count dtypes differ (D27) ------------------------------------------------------------------------
+    pa = [[0, 1, 3], [0, 2, 1], [1, 1, 2], [2, 5, 7], [3, 3, 1], [6, 7, 4], [7, 8, 2]]
+    pb = [[0, 0, 1], [0, 1, 6], [1, 2, 11], [2, 3, 2], [3, 3, 5]]          # quarters: 0.25 1.5 2.75 0.5 1.25
+    yield "mixed_dtypes", {"bases": [{"kind": "int", "width": 2, "bins": _fixed_bins([11, 5], 2), "pixels": pa, "w": [5, 1, 4, 2, 8, 3, 6]},
+                                     {"kind": "float", "width": 3, "bins": _fixed_bins([11, 5], 3), "pixels": pb, "w": [2, 7, 1, 9, 4]}],
+                           "resolutions": [4, 6, 9, 8], "chunksize": 100}
+    for t in range(6 if thorough else 2):
+        wa, wb = rng.choice([(2, 3), (3, 2), (1, 2), (2, 1), (3, 4), (2, 5)])
+        lengths = [rng.randint(2 * max(wa, wb) + 1, 3 * max(wa, wb) + 4)] + ([rng.randint(1, 6)] if rng.random() < 0.5 else [])
+        bs = []
+        for kind, w_ in (("int", wa), ("float", wb)):
+            b = _base(rng, lengths, w_, True, rng.choice(["random", "dense-random", "full"]))
+            if not b["pixels"]:
+                b = _base(rng, lengths, w_, True, "full")
+            if kind == "float":
+                b["pixels"] = [[i, j, 4 * (v % 5) + 1 + (k % 3)] for k, (i, j, v) in enumerate(b["pixels"])]
+            b["kind"] = kind
+            b["w"] = [(v * 3 + k) % 10 for k, (_, _, v) in enumerate(b["pixels"])]
+            bs.append(b)
+        res = sorted({wa * rng.randint(2, 5) for _ in range(2)} | {wb * rng.randint(2, 5) for _ in range(2)}, key=lambda x: rng.random())
+        yield "mixed_dtypes", {"bases": bs, "resolutions": res, "chunksize": rng.randint(1, 20)}
     # CLI spellings --------------------------------------------------------------------------------
     big = {"width": 1, "bins": _fixed_bins([1500, 700], 1), "symm": True,
            "pixels": sorted([rng.randrange(0, 1100), rng.randrange(1100, 2200), 1 + k] for k in range(12))}
@@ -631,6 +774,8 @@ def cases(tier, rng):
 
 
 def nontrivial(name, case):
+    if name == "mixed_dtypes":
+        return True
     if name == "sequence":
         return len(case["steps"]) >= 2
     if name == "forms":
